@@ -806,30 +806,61 @@ func modelRun(j *orch.Job, r *orch.Result) error {
 		tip = e.Pegnet + uint32(p.Upto)
 	}
 	retries := containsStr(p.Features, "retries")
-	n, err := harness.StartNode(harness.NodeConfig{DBPath: j.Dir + "/db", Wrap: retries}, m.W.Chain)
+	restarts := containsStr(p.Features, "restarts")
+	apiPort := 0
+	var undoRetries func()
+	start := func() (*harness.Node, error) {
+		n, err := harness.StartNode(harness.NodeConfig{DBPath: j.Dir + "/db", Wrap: retries}, m.W.Chain)
+		if err != nil {
+			return nil, err
+		}
+		if retries {
+			undoRetries = installRetries(n, r, p.Seed, e)
+		}
+		if containsStr(p.Features, "api-reads") {
+			// the daemon also answers read-only API requests between blocks (rich lists first of all: they go
+			// through the rolling-average cache the sync loop uses): what the rules demand of a block does not
+			// depend on who asked the daemon what
+			apiPort = freePort()
+			conf := viper.New()
+			conf.Set(config.APIListen, fmt.Sprintf("127.0.0.1:%d", apiPort))
+			srv.NewAPIServer(conf, n.P).Start(make(chan struct{}))
+			for i := 0; i < 200; i++ {
+				if cn, err := net.Dial("tcp", fmt.Sprintf("127.0.0.1:%d", apiPort)); err == nil {
+					cn.Close()
+					break
+				}
+				time.Sleep(5 * time.Millisecond)
+			}
+		}
+		return n, nil
+	}
+	n, err := start()
 	if err != nil {
 		return err
 	}
-	defer n.Stop()
-	if retries {
-		defer installRetries(n, r, p.Seed, e)()
-	}
-	apiPort := 0
-	if containsStr(p.Features, "api-reads") {
-		// the daemon also answers read-only API requests between blocks (rich lists first of all: they go
-		// through the rolling-average cache the sync loop uses): what the rules demand of a block does not
-		// depend on who asked the daemon what
-		apiPort = freePort()
-		conf := viper.New()
-		conf.Set(config.APIListen, fmt.Sprintf("127.0.0.1:%d", apiPort))
-		srv.NewAPIServer(conf, n.P).Start(make(chan struct{}))
-		for i := 0; i < 200; i++ {
-			if cn, err := net.Dial("tcp", fmt.Sprintf("127.0.0.1:%d", apiPort)); err == nil {
-				cn.Close()
-				break
-			}
-			time.Sleep(5 * time.Millisecond)
+	defer func() {
+		n.Stop()
+		if undoRetries != nil {
+			undoRetries()
 		}
+	}()
+	// "restarts": the daemon process ends and a new one takes over the database before every activation height,
+	// the height after it, every snapshot height and the one after it, and one height in five besides. What the
+	// rules demand of a block does not depend on how long the process applying it has been running.
+	restartBefore := func(h uint32) bool {
+		if !restarts {
+			return false
+		}
+		for _, a := range []uint32{e.GradingV2, e.TxConv, e.PEGPricing, e.OneWaypFCT, e.ConversionLimit, e.V4, e.V20, e.V20Dev, e.V202, e.V204, e.V204Burn, e.PIP10} {
+			if h == a || h == a+1 {
+				return true
+			}
+		}
+		if h >= e.V20 && (h%144 == 0 || h%144 == 1) {
+			return true
+		}
+		return (uint64(h)*2654435761>>7+uint64(p.Seed))%5 == 0
 	}
 	apiQs := []apiQuery{
 		{"rich-list", "get-rich-list", map[string]interface{}{"asset": "pXBT", "count": 5}},
@@ -843,7 +874,7 @@ func modelRun(j *orch.Job, r *orch.Result) error {
 	if err != nil {
 		return err
 	}
-	err = gen.Drive(n, m, m.W, tip, harness.WaitOpts{}, func(h uint32, b *forge.Block) error {
+	err = gen.DriveP(&n, m, m.W, tip, harness.WaitOpts{}, func(h uint32, b *forge.Block) error {
 		if err := mon.AfterBlock(b); err != nil {
 			return err
 		}
@@ -853,6 +884,20 @@ func modelRun(j *orch.Job, r *orch.Result) error {
 					r.Count("api_requests_between_blocks", 1)
 				}
 			}
+		}
+		if h < tip && restartBefore(h+1) {
+			n.Stop()
+			if undoRetries != nil {
+				undoRetries()
+			}
+			n2, err := start()
+			if err != nil {
+				return fmt.Errorf("restart before %d: %w", h+1, err)
+			}
+			n = n2
+			mon.DB, mon.RS.db = n.RO, n.RO
+			n.Run()
+			r.Count("process_restarts_between_blocks", 1)
 		}
 		return nil
 	})
